@@ -20,7 +20,8 @@ EXPLANATION = (
     'counterpart constructor stores what it is given; (R4) SkyRegion.contains is to_pixel(wcs).contains(from_sky(...)); '
     'compound conversions are component-wise and keep the operator. Not decided: the numerical 1e-6 of a real WCS; that '
     'the helper at pixel_to_world(c) and at the stored sky centre agree beyond WCS invertibility.')
-EXPLANATION_ADDED = (' (R4 also) the sky families that answer without their pixel image (point, line, text) give the same answer term as their pixel counterpart: constant False of the shape of the queried positions, complemented when excluded.')
+EXPLANATION_ADDED = (' (R4 also) the sky families that answer without their pixel image (point, line, text) give the same answer term as their pixel counterpart: constant False of the shape of the queried positions, complemented when excluded.'
+                     ' (R5) the scale/angle helper shared by both directions is the one C07.R1 decides (north offset of the coordinate itself, in its own frame with its attributes).')
 EXPLANATION += EXPLANATION_ADDED
 TRUSTED = ['wcs.world_to_pixel(wcs.pixel_to_world(x, y)) = (x, y) and conversely (invertible WCS)',
            'astropy unit algebra: q.to(U).value = q/U; Angle(q, unit) converts a Quantity',
